@@ -118,7 +118,7 @@ class SpecEval:
         return vtuple([self.ev(e) for e in n.elts])
 
     def ev_List(self, n):
-        items = [self.ev(e) for e in n.elts]
+        items = [unopt(self.ev(e)) for e in n.elts]
         if not items:
             return V(SEQ(NONE), None)
         et = items[0].ty
@@ -246,6 +246,8 @@ class SpecEval:
                 return SPECFUNS[name](self, args, kw)
             if name == "len":
                 v = self.ev(n.args[0])
+                if v.ty.kind == "opt":
+                    v = v.val
                 if v.ty.kind in ("str", "bytes"):
                     return V(INT, z3.Length(v.t))
                 if v.ty.kind == "tuple":
@@ -637,3 +639,27 @@ def _boxed_pred(kind, sort):
 
 SPECFUNS["is_boxed_str"] = _boxed_pred("str", z3.StringSort())
 SPECFUNS["is_boxed_bytes"] = _boxed_pred("bytes", z3.StringSort())
+
+
+@specfun("str_rfind")
+def _str_rfind(se, a, kw):
+    return V(INT, rfind(a[0].t, a[1].t))
+
+
+@specfun("static_ref")
+def _static_ref(se, a, kw):
+    from .state import static_ref
+    q = z3.simplify(a[0].t).as_string()
+    return V(ANY, static_ref(q))
+
+
+@specfun("match_group")
+def _match_group(se, a, kw):
+    return vopt(STR, ops.UF("match_group_none", z3.IntSort(), z3.IntSort(), z3.BoolSort())(a[0].t, a[1].t),
+                V(STR, ops.UF("match_group", z3.IntSort(), z3.IntSort(), z3.StringSort())(a[0].t, a[1].t)))
+
+
+@specfun("lm")
+def _lm(se, a, kw):
+    from .types import OBJ
+    return V(OBJ("Match"), se.st.ghost["last_match"].t)
